@@ -26,6 +26,8 @@ func (f *Frame) execBuiltin(res *ssa.Call, c *ssa.CallCommon, b *ssa.Builtin) {
 			set("(Slice.len "+args[0].T+")", nil)
 		case *types.Basic:
 			set("(str.len "+args[0].T+")", nil)
+			// memory-size assumption: no string is longer than 2^56 bytes (as for slice capacities)
+			ex.assume("(<= (str.len " + args[0].T + ") 72057594037927936)")
 		case *types.Map:
 			heap := S.heapForMap(ut)
 			mc := S.mapContent(ut)
